@@ -41,6 +41,7 @@ def check(rep: Report, ctx: Ctx) -> None:
     r41(rep, ctx)
     r42(rep, ctx)
     r42_models(rep, ctx)
+    r42_loader(rep, ctx)
     r43(rep, ctx)
     r44(rep, ctx)
     r45(rep, ctx)
@@ -413,6 +414,14 @@ def r42_models(rep: Report, ctx: Ctx) -> None:
         rep.obligations[-1].file = c.module.relpath
         rep.obligations[-1].line = probs[0][0].lineno if probs \
             else c.node.lineno
+
+
+def r42_loader(rep: Report, ctx: Ctx) -> None:
+    """The loader is total: an entry of the model file that is skipped is an
+    event that silently loses everything the earlier chunks knew about it."""
+    from .effspec import check_table
+    from .walkspec import LOADER_TABLE
+    check_table(rep, ctx, "R4.2", LOADER_TABLE, list(LOADER_TABLE))
 
 
 def r43(rep: Report, ctx: Ctx) -> None:
